@@ -223,11 +223,32 @@ def r03_4(prog: Program, rep: Report, direction="unmarshal", rule="R03.4"):
     rep.check(okv, rule, c.qualname, f.loc, "self.values are the Literal's own arguments", "self.values is not inspection.args(t)", detail="values")
 
 
+def r03_7(prog, rep):
+    """The structured routine builds a TypedDict with plain dict(**kwargs): nothing enforces the required keys unless the
+    routine compares what it collected with `__required_keys__` (dataclasses and named tuples raise by themselves)."""
+    fb = C.fallback_routine(prog, "unmarshal")
+    if fb is None:
+        rep.undecided("R03.7", "unmarshal:fallback", "", "structured routine not found")
+        return
+    f = C.call_of(prog, fb)
+    enforced = False
+    for c in prog.mro(fb):
+        for m in c.methods.values():
+            for pth in P.paths_of(prog, m):
+                for tm in pth.all_terms():
+                    if T.contains(tm, lambda x: x == ("const", "__required_keys__") or (x[0] == "attr" and x[2] == "__required_keys__")):
+                        enforced = True
+    raises = any(pth.exit[0] == "raise" for pth in P.paths_of(prog, f)) or enforced
+    rep.check(enforced and raises, "R03.7", fb.qualname, f.loc, "required TypedDict keys are checked before the mapping is built", "the structured routine never consults __required_keys__: for a TypedDict target, dict(**kwargs) accepts any subset of the fields — unmarshal(Movie, {}) == {} although `title` and `year` are required (dataclasses and named tuples reject the same input)", detail="typeddict-required")
+
+
 def run(prog: Program, rep: Report, tier: str):
     rep.rule("R03.1", "no raw member reaches the output of a composite unmarshaller", floor=5)
     rep.rule("R03.2", "scalar/temporal returns are class-guarded, constructed, or delegated", floor=25)
     rep.rule("R03.3", "fixed-tuple arity", floor=1)
     rep.rule("R03.4", "Literal membership dominates every return; fall-through raises ValueError", floor=4)
+    rep.rule("R03.7", "a TypedDict result has its required keys", floor=1)
+    r03_7(prog, rep)
     rep.rule("R03.6", "composite forms reach the routine of their own structural kind (fixed tuples keep arity/positions; shared with R01.6)", floor=15)
     rep.rule("R03.5", "origin map yields concrete constructors of the mapped kind (shared with R17.1)", floor=18)
     r03_1(prog, rep)
